@@ -38,7 +38,7 @@ theorem C16_wait_never_raises (c : Src.Ctx) (fuel : Nat) (pend : List AEv) (r0 r
 /-- Without an enclosing foreach a consumed symbol costs nothing and raises nothing. -/
 theorem waitConsume_plain (c : Src.Ctx) (fuel : Nat) (pend : List AEv) (r0 r : Rx) (rest K' : Kont) :
     Src.waitConsume c fuel pend r0 r {} rest K' = Src.flushT pend (.leaf (.next K')) := by
-  simp [Src.waitConsume, Src.perCharTree]
+  simp [Src.waitConsume, Src.perCharTree, Src.pcActs]
 
 /-- A pattern that cannot match the empty string is only ever left by consuming: every symbol is
     consumed by the wait. -/
